@@ -220,6 +220,23 @@ pub struct TerminalRenderer {
     frame_count: usize,
 }
 
+/// Check if the cell at given position contains wide (two columns) character
+fn is_wide_char(surf: &SurfaceOwned<Cell>, pos: Position) -> bool {
+    match surf.get(pos).map(|cell| &cell.kind) {
+        Some(CellKind::Char(character)) => character.width() == Some(2),
+        _ => false,
+    }
+}
+
+/// Mark cell as damaged unless it is ignored
+fn mark_damaged(marks: &mut SurfaceOwned<CellMark>, pos: Position) {
+    if let Some(mark) = marks.get_mut(pos) {
+        if *mark != CellMark::Ignored {
+            *mark = CellMark::Damaged;
+        }
+    }
+}
+
 impl TerminalRenderer {
     /// Create new terminal renderer
     pub fn new<T: Terminal + ?Sized>(term: &mut T, clear: bool) -> Result<Self, Error> {
@@ -321,12 +338,30 @@ impl TerminalRenderer {
                     .iter_mut()
                     .filter(|mark| **mark != CellMark::Ignored)
                     .for_each(|mark| *mark = CellMark::Damaged);
+                // Wide character to the left of the image that had its second half under
+                // the image was erased when the image was rendered.
+                if pos.col > 0 {
+                    for row in pos.row..pos.row + size.height {
+                        let left = Position::new(row, pos.col - 1);
+                        if is_wide_char(&self.back, left) {
+                            mark_damaged(&mut self.marks, left);
+                        }
+                    }
+                }
             }
 
             // record image to be rendered, and mark area under the image to be ignored
             if let CellKind::Image(image) = &new.kind {
                 self.images.push((pos, new.face, image.clone()));
                 let size = image.size_cells(self.size.pixels_per_cell());
+                // Area under the image is going to be erased, if it cuts wide character
+                // in half, the cell with the other half needs to be rendered.
+                for row in pos.row..pos.row + size.height {
+                    let last = Position::new(row, (pos.col + size.width).saturating_sub(1));
+                    if is_wide_char(&self.back, last) {
+                        mark_damaged(&mut self.marks, Position::new(row, last.col + 1));
+                    }
+                }
                 self.marks
                     .view_mut(
                         pos.row..pos.row + size.height,
@@ -353,7 +388,14 @@ impl TerminalRenderer {
 
                 // skip conditions
                 if mark != CellMark::Damaged && (mark == CellMark::Ignored || old == new) {
-                    pos.col += 1;
+                    // visible wide character that has not changed also covers next cell,
+                    // and whatever is put there must not be rendered on top of it.
+                    pos.col += match &new.kind {
+                        CellKind::Char(character) if mark != CellMark::Ignored => {
+                            character.width().unwrap_or(0).max(1)
+                        }
+                        _ => 1,
+                    };
                     continue;
                 }
                 let CellKind::Char(character) = &new.kind else {
@@ -376,6 +418,7 @@ impl TerminalRenderer {
                     term.execute(TerminalCommand::CursorTo(cursor))?;
                 }
 
+                let pos_start = pos;
                 if matches!(character, ' ') {
                     // find repeated empty cells
                     let mut repeats = 1;
@@ -406,6 +449,15 @@ impl TerminalRenderer {
                     term.execute(TerminalCommand::Char(*character))?;
                     cursor.col += character_width;
                     pos.col += character_width;
+                }
+
+                // Overwriting first half of the wide character makes terminal to erase its
+                // second half too, so the cell that follows updated cells needs to be
+                // rendered even if it has not changed.
+                if pos.col > pos_start.col
+                    && is_wide_char(&self.back, Position::new(pos.row, pos.col - 1))
+                {
+                    mark_damaged(&mut self.marks, pos);
                 }
             }
             pos.col = 0;
